@@ -571,6 +571,24 @@ func genC11(repo string) (string, error) {
 		return true
 	})
 	fmt.Fprintf(&sb, "def fixRateNilGuard : Bool := %v\n", rateNilGuard)
+	// ---- the data load operator: the pending-load counter is decremented on every return path
+	_, dlf, err := ParseFile(repo, "query/operator/data_load.go")
+	if err != nil {
+		return "", err
+	}
+	dlFirst := ""
+	var dlRest []string
+	if fd := FindFunc(dlf, "dataLoad", "Execute"); fd != nil && fd.Body != nil {
+		for i, st := range fd.Body.List {
+			if i == 0 {
+				dlFirst = c11Text(st)
+			} else if strings.Contains(c11Text(st), "PendingDataLoadTasks") {
+				dlRest = append(dlRest, c11Text(st))
+			}
+		}
+	}
+	sb.WriteString("def dataLoadFirstStmt : String := " + strconv.Quote(dlFirst) + "\n")
+	sb.WriteString("def dataLoadOtherPendingStmts : List String := " + LeanStrList(dlRest) + "\n")
 	// ---- month calculator: CalcFamily ignores the segment time
 	_, ic, err := ParseFile(repo, "pkg/timeutil/interval_calculator.go")
 	if err != nil {
